@@ -60,6 +60,10 @@ func NewFlexEncoder03(payloadType uint8, ssrc uint32) *FlexEncoder03 {
 // EncodeFec returns a list of generated RTP packets with FEC payloads that protect the specified mediaPackets.
 // This method returns nil in case of missing RTP packets in the mediaPackets array or packets passed out of order.
 func (flex *FlexEncoder03) EncodeFec(mediaPackets []rtp.Packet, numFecPackets uint32) []rtp.Packet {
+	// The coverage table has MaxFecPackets rows. A batch has at most 109 media packets, so repair
+	// packets beyond that would cover nothing; asking for more must not index out of range.
+	numFecPackets = min(numFecPackets, MaxFecPackets)
+
 	// Check if mediaPackets is empty, or larger than the 109 positions of the FlexFEC-03 mask
 	if len(mediaPackets) == 0 || len(mediaPackets) > maxMediaPackets03 {
 		return nil
